@@ -18,7 +18,14 @@ In-process contracts (mode B): cost cells are symbolic reals.  The hash-seed par
 the quantifier: ``relkinds.under-hash-seeds`` re-executes the same harnesses (and the
 expression-string harness, which exists only there because ``ExpressionFunction``
 keeps its variables in a ``set``) concretely in a subprocess per ``PYTHONHASHSEED``
-value and turns every enumerated case of the subprocess into a path of the parent.
+value; the parent turns the enumerated cases of the subprocess into its paths (in chunks,
+so that a job stays below the engine's slice size) and replays a failing chunk in a fresh
+subprocess under the same seed.
+
+Labels: ``<kind>[<how built>].<eval|slice-in-one-step|slice-in-several-steps>.<what>[<variant>]``.
+Variants that isolate the regions where the unchanged tree is known to fail carry a tag
+(``[list-order-differs-from-argument-order]``, ``[shared-variables]``, ``[return_neutral]``,
+``[ignore_extra_vars]``).  A label is witnessed at most once per process (``_prove``).
 """
 import functools
 import hashlib
@@ -30,7 +37,7 @@ import sys
 import time
 
 from pvc.explore import Raised
-from pvc.sym import And, eq, is_sym, PathAbort, SymNum
+from pvc.sym import And, eq, PathAbort, SymNum
 from . import fx
 
 
@@ -393,7 +400,7 @@ def _simple_shapes(tier):
 
 # ------------------------------------------------------------------ conditional relations
 
-# sorted order (t? no: a b g q t) interleaves condition and consequence variables
+# ConditionalRelation sorts its dimensions by name: a b g q t interleaves condition and consequence variables
 _CPOOL = {"t": [0, 5], "g": [2, 1], "q": [10, 0], "b": ["n", ""], "a": [7, 0, 3]}
 _TRUTH = [True, False, False, True, True, False, True, False, False]
 
